@@ -31,10 +31,13 @@ def do_import(src, prop, letter, store=None):
     rc, out = sh("git -C %s worktree add -q --detach %s HEAD" % (REPO, wt))
     assert rc == 0, out
     log = {}
+    # a demonstration that acts between two sub-steps of one requests() call needs the at_event hook
+    dflags = 'RUSTFLAGS="--cfg micro_http_verif" ' if "set_at_event" in open(demo).read() else ""
+    log["demo_needs_hook_cfg"] = bool(dflags)
     try:
         os.makedirs(os.path.join(wt, "tests"), exist_ok=True)
         shutil.copy(demo, os.path.join(wt, "tests", "demo.rs"))
-        rc, out = sh("timeout 600 cargo test --offline --test demo 2>&1 | tail -15", cwd=wt)
+        rc, out = sh(dflags + "timeout 600 cargo test --offline --test demo 2>&1 | tail -15", cwd=wt)
         log["demo_without_change"] = "pass" if "test result: ok" in out and "FAILED" not in out else "FAIL"
         rc, out = sh("git apply %s" % diff, cwd=wt)
         assert rc == 0, "diff does not apply: " + out
@@ -44,7 +47,7 @@ def do_import(src, prop, letter, store=None):
         rc2, out2 = sh("timeout 600 cargo test --offline --doc 2>&1 | grep -E 'test result|FAILED' | head -5", cwd=wt, timeout=700)
         log["suite_with_change"] = (out1.strip() + " | " + out2.strip())
         log["suite_passes"] = ("62 passed; 0 failed" in out1) and ("14 passed; 0 failed" in out2)
-        rc, out = sh("timeout 600 cargo test --offline --test demo 2>&1", cwd=wt)
+        rc, out = sh(dflags + "timeout 600 cargo test --offline --test demo 2>&1", cwd=wt)
         log["demo_with_change"] = "FAIL" if (rc != 0 and ("FAILED" in out or "panicked" in out)) else "pass"
         log["demo_output"] = "\n".join(l for l in out.split("\n") if ("test result" in l or "panicked" in l))[:1500]
     finally:
